@@ -29,7 +29,8 @@ const std::vector<uint64_t> BIG = {0, 1, P31 - 1, P31, P32 - 1, P32, P63 - 1, P6
 using SetSys = SetSysT<IntKey>;
 using MapSys = MapSysT<IntKey, IntVal>;
 
-const std::vector<int> CONTEXT_PLANS = {ALL_IN_HANDLER, ALL_UNWINDING, THREAD_ON_ODD_STEPS, THREAD_ON_EVEN_STEPS};
+const std::vector<int> UNWIND_PLANS = {ALL_IN_HANDLER, ALL_UNWINDING};
+const std::vector<int> THREAD_PLANS = {THREAD_ON_ODD_STEPS, THREAD_ON_EVEN_STEPS};
 
 }  // namespace
 
@@ -63,23 +64,28 @@ VF_SECTION(big_seq, 12, 16, 120) {
   }
 }
 
-// execution contexts
+// execution contexts.  The two thread plans create one thread per call (wall-clock bound on a loaded machine):
+// they run to the quick lengths in both tiers; the handler / unwinding plans go one step further in thorough.
 VF_SECTION(ctx_seq, 12, 16, 120) {
   size_t n = r.thorough() ? 4 : 3;
   {
     Checker<SetSys> c(r, set_medium());
-    c.sequences(n, "LRUSet medium alphabet in contexts", CONTEXT_PLANS);
+    c.sequences(n, "LRUSet medium alphabet in contexts", UNWIND_PLANS);
+    c.sequences(3, "LRUSet medium alphabet across threads", THREAD_PLANS);
   }
   {
     Checker<MapSys> c(r, map_medium());
-    c.sequences(n, "LRUMap medium alphabet in contexts", CONTEXT_PLANS);
+    c.sequences(n, "LRUMap medium alphabet in contexts", UNWIND_PLANS);
+    c.sequences(3, "LRUMap medium alphabet across threads", THREAD_PLANS);
   }
   {
     Checker<SetSys> c(r, set_reduced());
-    c.sequences(n + 1, "LRUSet reduced alphabet with swap in contexts", CONTEXT_PLANS);
+    c.sequences(n + 1, "LRUSet reduced alphabet with swap in contexts", UNWIND_PLANS);
+    c.sequences(4, "LRUSet reduced alphabet with swap across threads", THREAD_PLANS);
   }
   {
     Checker<MapSys> c(r, map_reduced());
-    c.sequences(n + 1, "LRUMap reduced alphabet with swap in contexts", CONTEXT_PLANS);
+    c.sequences(n + 1, "LRUMap reduced alphabet with swap in contexts", UNWIND_PLANS);
+    c.sequences(4, "LRUMap reduced alphabet with swap across threads", THREAD_PLANS);
   }
 }
